@@ -71,6 +71,11 @@ def run(args):
     r = eb.conform_parallel('checks.C10', 'build_oklch')
     dt = time.time() - t0
     res = b_results(r)
+    CV_ = 'cm_colors.core.conversions'
+    run_ranges(ck, prog, [f'{CV_}:srgb_to_linear', f'{CV_}:linear_to_srgb', f'{CV_}:calculate_hue_angle', f'{CV_}:rgb_to_oklch', f'{CV_}:oklch_to_rgb'], [
+        ('clamp before the transfer function removed', CV_, 'oklch_to_rgb', '    r_linear = max(0.0, min(1.0, r_linear))\n', '    r_linear = r_linear\n'),
+        ('cube root of the raw cone response', CV_, 'rgb_to_oklch', '        if x >= 0:\n            return pow(x, 1 / 3)', '        if x >= -1:\n            return pow(x, 1 / 3)'),
+    ])
     for name, ok, detail in res:
         ck.add_obligation('B', name, 'discharged' if ok else ('unknown' if ok is None else 'failed'), 'ring-normal-form + z3', dt / 2, detail)
         if ok is False: ck.violation(name, 'B', detail)
